@@ -76,7 +76,11 @@ func (g *guide) do(line string) string {
 	g.lines = append(g.lines, line)
 	op := strings.Fields(line)
 	if op[0] == "cfg" {
-		g.r.e = newEngine(atoi(op[1]), uint64(atoi(op[2])))
+		maxPer := 0
+		if len(op) > 6 {
+			maxPer = atoi(op[6])
+		}
+		g.r.e = newEngine(atoi(op[1]), uint64(atoi(op[2])), maxPer)
 		g.r.leafLen, g.r.innLen, g.r.extLen = atoi(op[3]), atoi(op[4]), atoi(op[5])
 		for p := 0; p < g.r.e.npeers; p++ {
 			g.r.prime(p)
@@ -124,6 +128,9 @@ func (g *guide) newLine(npeers int) string {
 			bh.WriteByte('k')
 		}
 	}
+	if g.rnd.Intn(4) == 0 {
+		bh.WriteByte('F') // park the executor before FinishTask
+	}
 	k := g.nreq
 	g.nreq++
 	return fmt.Sprintf("new %d %d %d %d %s %d %d %s", g.rnd.Intn(npeers), k, k, 1+g.rnd.Intn(3), hookPlans[g.rnd.Intn(len(hookPlans))], n, miss, bh.String())
@@ -141,7 +148,7 @@ func (g *guide) candidates(maxReq int) []weighted {
 	}
 	for _, w := range e.workers {
 		switch w.state {
-		case "L", "H":
+		case "L", "H", "F":
 			c = append(c, weighted{8, fmt.Sprintf("step %d", w.id)})
 		case "D":
 			if g.rnd.Intn(40) == 0 {
@@ -251,7 +258,7 @@ func (g *guide) drain(budget int) {
 		}
 		if line == "" {
 			for _, w := range e.workers {
-				if w.state == "L" || w.state == "H" {
+				if w.state == "L" || w.state == "H" || w.state == "F" {
 					line = fmt.Sprintf("step %d", w.id)
 					break
 				}
@@ -284,7 +291,11 @@ func genLife(rnd *rand.Rand, comp string, i int, tier string) []string {
 		}
 	}()
 	npeers := 1 + rnd.Intn(3)
-	g.do(fmt.Sprintf("cfg %d 0 %d %d %d", npeers, leafLen, innerLen, extLen))
+	maxPer := 0
+	if rnd.Intn(3) == 0 {
+		maxPer = 1 + rnd.Intn(2) // MaxInProgressIncomingRequestsPerPeer
+	}
+	g.do(fmt.Sprintf("cfg %d 0 %d %d %d %d", npeers, leafLen, innerLen, extLen, maxPer))
 	maxReq := 1 + rnd.Intn(4)
 	nops := 5 + rnd.Intn(40)
 	if tier == "thorough" {
@@ -376,7 +387,7 @@ func genStall(rnd *rand.Rand, i int) []string {
 		}
 		line := ""
 		for _, w := range e.workers {
-			if w.peer == 1 && (w.state == "L" || w.state == "H") {
+			if w.peer == 1 && (w.state == "L" || w.state == "H" || w.state == "F") {
 				line = fmt.Sprintf("step %d", w.id)
 			}
 		}
